@@ -207,3 +207,14 @@ Definition representable (p : packet) : bool :=
   let h := p_hdr p in
   (h_flow h <? 2 ^ 20) && host_representable (h_dst_host h) && host_representable (h_src_host h)
   && path_representable (h_path h) && (l4_len (p_pl p) <? 65536).
+
+(** KNOWN FINDING class C03-decoder-accepts-unencodable-path-index: a standard path whose CurrINF /
+    CurrHF point outside the path.  The decoder (views are deliberately non-semantic) accepts such
+    bytes; the encoder's gate refuses the decoded model, so decode-then-encode does not give the
+    bytes back. *)
+Definition path_index_out_of_range (p : packet) : bool :=
+  match h_path (p_hdr p) with
+  | DP_Std ci ch segs =>
+    (N.of_nat (length segs) <=? ci) || (N.of_nat (length (flat_map s_hops segs)) <=? ch)
+  | _ => false
+  end.
